@@ -90,6 +90,9 @@ ALL = [
     # formatted blanks (the underlined gaps of a form line): text without any token carries its formatting too
     ('P44-formatted-blanks', ['C07', 'C19', 'C06'], lambda: docx(p(r('«1»Name:', '<w:b/>'), r('      ', '<w:u w:val="single"/>'), r(' ', '<w:strike/>'), r('«2» end'))
         + p(r('«3»x'), r('\u00a0\u2003', '<w:highlight w:val="yellow"/>'), r('«4»y', '<w:i/>'), ppr='<w:pStyle w:val="Heading2"/>'))),
+    # an equation whose text nodes include blanks: every character is part of the stand-in
+    ('P45-equation-with-blank-text-nodes', ['C02', 'C07'], lambda: docx(p(r('«1»see '), '<m:oMath><m:r><m:t>a</m:t></m:r><m:r><m:t xml:space="preserve"> </m:t></m:r><m:r><m:t>b</m:t></m:r></m:oMath>', r('«2» here'))
+        + p(r('«3»left'), '<m:oMath><m:r><m:t xml:space="preserve"> </m:t></m:r></m:oMath>', r('«4»right')))),
     ('P15-links-different-anchors', ['C10', 'C06'], lambda: docx(p(link('r:id="rId9" w:anchor="a"', r('«1»x')), link('r:id="rId9" w:anchor="b"', r('«2»y'))), docrels=LINK)),
     ('P16-word-word', ['C09'], lambda: docx(p(r('body')), docrels=[('rId2', 'header', 'word/h.xml')], extra={'word/word/h.xml': f'<w:hdr {NS}>' + p(r('head-in-word-word')) + '</w:hdr>'})),
     ('P18-range-end-without-start', ['C13', 'C12'], lambda: docx(p(r('a'), '<w:commentRangeEnd w:id="5"/>', r('b', '<w:b/>')))),
